@@ -41,6 +41,26 @@ fn setup_pdata_header(buffer: &mut [u8], is_last: bool) {
     buffer[11] = if is_last { 0x02 } else { 0x00 };
 }
 
+/// Called by the P-Data writers right after a full PDU was sent
+/// and `buffer` was truncated back to the PDU and PDV headers.
+///
+/// `taken` is the number of bytes of the caller's `buf` which went into that PDU.
+/// It is 0 when the buffer was already full before the call
+/// (a previous write filled it exactly):
+/// in that case the next PDU is started with bytes of `buf`,
+/// so that a write of a non-empty `buf` never reports `Ok(0)`
+/// (which `write_all` turns into a `WriteZero` error).
+///
+/// Returns the number of bytes of `buf` consumed by the write call.
+fn refill_after_dispatch(buffer: &mut Vec<u8>, total_len: usize, taken: usize, buf: &[u8]) -> usize {
+    if taken > 0 {
+        return taken;
+    }
+    let taken = buf.len().min(total_len.saturating_sub(buffer.len()));
+    buffer.extend(&buf[..taken]);
+    taken
+}
+
 /// A P-Data value writer.
 ///
 /// This exposes an API to iteratively construct and send Data messages
@@ -187,11 +207,11 @@ where
         } else {
             // fill in the rest of the buffer, send PDU,
             // and leave out the rest for subsequent writes
-            let buf = &buf[..total_len - self.buffer.len()];
-            self.buffer.extend(buf);
+            let taken = total_len - self.buffer.len();
+            self.buffer.extend(&buf[..taken]);
             debug_assert_eq!(self.buffer.len(), total_len);
             self.dispatch_pdu()?;
-            Ok(buf.len())
+            Ok(refill_after_dispatch(&mut self.buffer, total_len, taken, buf))
         }
     }
 
@@ -368,7 +388,7 @@ pub mod non_blocking {
     };
 
     pub use super::PDataReader;
-    use super::setup_pdata_header;
+    use super::{refill_after_dispatch, setup_pdata_header};
 
     const PDU_PDV_HEADER_SIZE: usize = (PDU_HEADER_SIZE + PDV_HEADER_SIZE) as usize;
 
@@ -580,7 +600,12 @@ pub mod non_blocking {
                                     if written == this.buffer.len() {
                                         // If we wrote the whole buffer, reset `self.buffer`
                                         this.buffer.truncate(PDU_PDV_HEADER_SIZE);
-                                        return Poll::Ready(Ok(consumed));
+                                        return Poll::Ready(Ok(refill_after_dispatch(
+                                            &mut this.buffer,
+                                            total_len,
+                                            consumed,
+                                            buf,
+                                        )));
                                     }
                                 }
                                 Poll::Ready(Err(e)) => return Poll::Ready(Err(e)),
@@ -622,7 +647,14 @@ pub mod non_blocking {
                                     // If we wrote the whole buffer, reset `self.buffer` and change state back to ready
                                     this.buffer.truncate(PDU_PDV_HEADER_SIZE);
                                     this.state = WriteState::Ready;
-                                    return Poll::Ready(Ok(consumed));
+                                    let total_len =
+                                        (this.max_pdu_length + PDU_HEADER_SIZE) as usize;
+                                    return Poll::Ready(Ok(refill_after_dispatch(
+                                        &mut this.buffer,
+                                        total_len,
+                                        consumed,
+                                        buf,
+                                    )));
                                 }
                             }
                             Poll::Ready(Err(e)) => return Poll::Ready(Err(e)),
